@@ -97,9 +97,10 @@ def type_terms(env: Env, max_depth: int = 3, full: bool = True) -> st.SearchStra
 def literal_defaults(strings: st.SearchStrategy | None = None) -> st.SearchStrategy:
     ints = st.one_of(
         st.integers(-5, 300).map(lambda v: ["int", str(v)] if v >= 0 else ["int", str(v)]),
-        st.sampled_from([["int", "0x1F"], ["int", "1_000"], ["int", "12345678901234567890123"], ["int", "+7"], ["int", "-0"], ["int", "0b101"], ["int", "0o17"]]),
+        st.sampled_from([["int", "0x1F"], ["int", "1_000"], ["int", "12345678901234567890123"], ["int", "+7"], ["int", "-0"], ["int", "0b101"], ["int", "0o17"],
+                         ["int", "-9007199254740993"], ["int", "+9007199254740993"], ["int", "-12345678901234567890123"], ["int", "-0x20000000000001"], ["int", "9007199254740993"]]),
     )
-    floats = st.sampled_from([["float", s] for s in ["1.5", "-2.25", "0.0", "-0.0", "1e3", "2.5e-3", "1e16", "1.0e-7", "3.", ".5", "+1.5", "1_0.5"]])
+    floats = st.sampled_from([["float", s] for s in ["1.5", "-2.25", "0.0", "-0.0", "1e3", "2.5e-3", "1e16", "1.0e-7", "3.", ".5", "+1.5", "1_0.5", "-1e-7", "-123456789.125", "-0.1", "+.5e1"]])
     strs = (strings or st.sampled_from(["", "a", "hello world", "x_y", "Some String", "0", "None", "true"])).map(lambda s: ["str", s])
     return st.one_of(ints, floats, strs, st.sampled_from([["bool", True], ["bool", False], ["none"]]))
 
